@@ -431,7 +431,7 @@ def smallest_cap(algo, K, n, k=1):
 # rewards
 
 OPEN_FAMILIES = ["neg", "const", "zero", "tied", "noisy", "large", "large_off", "unit", "drift", "altext",
-                 "incr", "decr", "best_first", "best_last", "twoval", "quant5", "bern", "negbern", "nonpos3", "hugeneg"]
+                 "incr", "decr", "best_first", "best_last", "twoval", "quant5", "bern", "negbern", "nonpos3", "hugeneg", "intnormal", "intwide", "int3wide"]
 HUGE_FAMILIES = ["huge"]
 CLOSED_FAMILIES = ["cl_hump", "cl_sine", "cl_garland", "cl_step", "cl_negdist"]
 
@@ -448,6 +448,12 @@ def open_rewards(fam, seed, T):
         return rng.choice([0.0, 1.0, -1.0], size=T)
     if fam == "quant5":
         return rng.choice([0.0, 0.25, 0.5, 0.75, 1.0], size=T)
+    if fam == "intwide":
+        return np.round(rng.normal(0, 10, T))
+    if fam == "int3wide":
+        return rng.choice([0.0, 6.0, -4.0], size=T, p=[0.6, 0.2, 0.2])
+    if fam == "intnormal":
+        return np.round(rng.normal(0, 3, T))
     if fam == "hugeneg":
         return -(10.0 ** rng.uniform(19, 21, T))
     if fam == "negbern":
@@ -598,7 +604,10 @@ def gen_params(rng, algo, n, K, narrow=False):
             P["bound"] = float(10 ** rng.uniform(-2, 1.5))
         return P
     if family(algo) in ("POO", "GPO"):
-        return {"nu": nu, "rhomax": float(rng.uniform(0.02, 0.98))}
+        # the documented range is 0 < rhomax < 1; 15% of the draws sit close to 1, where POO keeps doubling its
+        # number of learners (GPO has no budget per learner there: known finding of C01)
+        rm = float(rng.uniform(0.02, 0.98)) if rng.random() < 0.85 else float(rng.uniform(0.98, 0.998))
+        return {"nu": nu, "rhomax": rm}
     if algo == "DOO":
         return {}
     if algo == "DOO_delta":
